@@ -10,6 +10,7 @@ use std::panic;
 
 mod c15;
 mod c17;
+mod c18;
 mod c20;
 #[allow(dead_code)]
 mod probe;
@@ -55,6 +56,7 @@ fn main() {
     match args[1].as_str() {
         "C15" => c15::run(&mut ctx),
         "C17" => c17::run(&mut ctx),
+        "C18" => c18::run(&mut ctx),
         "C20" => c20::run(&mut ctx),
         other => {
             eprintln!("no oracle for {}", other);
